@@ -219,7 +219,7 @@ def names_of(libname, decl_index):
         table = [dict() for _ in decls]
         cxxnames = {}
 
-        def visit(node):
+        def visit(node, containers=()):
             for fn in getattr(node, "functions", []):
                 if fn.decl in decls:
                     i = decls.index(fn.decl)
@@ -228,8 +228,18 @@ def names_of(libname, decl_index):
                     for lang, field in (("c", "C_name"), ("fortran", "F_name_impl"), ("python", "PY_name_impl"), ("lua", "LUA_name_impl")):
                         if fmt.inlocal(field):
                             table[i].setdefault(lang, set()).add(getattr(fmt, field))
+                            if lang == "c":
+                                for ci in containers:
+                                    table[ci].setdefault("c-inside", set()).add(getattr(fmt, field))
+            for en in getattr(node, "enums", []):
+                for mname, mfmt in getattr(en, "_fmtmembers", {}).items():
+                    for ci in containers:
+                        table[ci].setdefault("c-inside", set()).add(mfmt.C_enum_member)
             for sub in list(getattr(node, "classes", [])) + list(getattr(node, "namespaces", [])):
-                visit(sub)
+                kind = "class" if sub in getattr(node, "classes", []) else "namespace"
+                text = "%s %s" % (kind, sub.name)
+                inner = containers + ((decls.index(text),) if text in decls else ())
+                visit(sub, inner)
         visit(r.library)
         overloaded = set()
         for nm, idx in cxxnames.items():
@@ -340,6 +350,12 @@ def check_run(libname, wrap_c, wrap_f, decl_index, decl_cf, cfg, res):
         dtext = decl_nodes(pipeline.load_yaml(cc.LIBS[libname]))[decl_index]["decl"]
         dflag = {"c": decl_cf.get("wrap_c", wrap_c), "fortran": decl_cf.get("wrap_fortran", wrap_f),
                  "python": cfg["decl.wrap_python"], "lua": cfg["decl.wrap_lua"]}
+        if not dflag["c"] and not dflag["fortran"]:
+            # a container (namespace / class) whose C wrapper is off: nothing declared inside it may reach the C output
+            ctext = "\n".join(t for f, t in files.items() if kind_of(f) == "c")
+            for nm in mine.get("c-inside", []):
+                if re.search(r"\b%s\b" % re.escape(nm), ctext):
+                    return "declaration %r has wrap_c off but %s (declared inside it) appears in the C output" % (dtext, nm)
         for lang in ("python", "lua", "fortran"):
             others = set()
             for j in range(nd):
